@@ -70,6 +70,106 @@ def edge_value(rng, stratum):
 PATH_FORMS = {"str": lambda p: p, "pathlike": pathlib.Path, "bytes": os.fsencode}
 
 
+# family "spell": how a path source is SPELLED relative to the process - the same file named absolutely, by its bare name in the current
+# directory, with a leading "./", inside / through an existing sub-directory, and from a sub-directory through "..".  Temporary ABSOLUTE paths
+# are one spelling only; os.path.dirname / abspath / split treat the others differently ("" for a bare name).
+SPELLINGS = ["abs", "bare", "dot", "sub", "dotdot", "parent"]
+# ... and what the file is called: with blanks, without / with several extensions, hidden, non-ASCII, characters the SWC syntax itself uses
+FILE_NAMES = ["w.swc", "neuron 1.swc", "n", ".hidden.swc", "a.b.c.SWC", "çell-β.swc", "#1.swc", "x.swc.bak", "7"]
+
+
+def spelled(how, name, base):
+    """(directory to run in, path as the caller spells it, the file's absolute location) for a file `name` under the fresh directory `base`"""
+    sub = os.path.join(base, "sub")
+    if how in ("sub", "dotdot", "parent"):
+        os.makedirs(sub, exist_ok=True)   # the directories named in a path exist: the property is about writing a file, not about making folders
+    cwd = sub if how == "parent" else base
+    path = {"abs": os.path.join(base, name), "bare": name, "dot": os.path.join(os.curdir, name), "sub": os.path.join("sub", name),
+            "dotdot": os.path.join("sub", os.pardir, name), "parent": os.path.join(os.pardir, name)}[how]
+    return cwd, path, os.path.normpath(os.path.join(cwd, path))
+
+
+# family "after": what the PROCESS did with the same entry points before the round trip - an earlier read / write that used one of their
+# optional parameters with a non-default value (extra columns, eswc, root fixing / sorting flags, other column names, another encoding), or an
+# earlier read that failed.  A round trip is a function of the tree and the options it is given, not of earlier calls.
+BEFORE_OPS = ["read-extra", "write-extra", "read-flags", "read-names", "read-bad", "read-encoding", "write-plain"]
+
+
+def before_op(rng, op):
+    d = {"op": op, "m": rng.choice([1, 2, 3, 5, 9])}
+    if op == "read-extra":
+        d.update(via=rng.choice(["read_swc", "Tree.from_swc", "Tree.from_eswc"]), k=rng.randint(1, 3), src=rng.choice(["text", "bytes", "path"]))
+    elif op == "write-extra":
+        d.update(via=rng.choice(["to_swc", "to_eswc"]), k=rng.randint(1, 3), offset=rng.choice([0, 1, 7]))
+    elif op == "read-flags":
+        d.update(fix_roots=rng.choice(["somas", "nearest", False]), sort_nodes=rng.random() < 0.5, reset_index=rng.random() < 0.5, roots=rng.choice([1, 2]))
+    elif op == "read-names":
+        d.update(reset_index=rng.random() < 0.3)
+    elif op == "read-bad":
+        d.update(what=rng.choice(["short-row", "word-row", "missing-file", "extra-missing"]))
+    elif op == "read-encoding":
+        d.update(encoding=rng.choice(["detect", "utf-16", "latin-1", "utf-8-sig"]))
+    elif op == "write-plain":
+        d.update(offset=rng.choice([0, 1, 1000]), source=rng.choice([True, False, "other"]), comments=rng.random() < 0.5)
+    return d
+
+
+def small_rows(m, k=0, roots=1, off=1):
+    """rows of an m-node chain (the first `roots` nodes are roots) with k additional numeric columns"""
+    return "".join(f"{i + off} {1 if i < roots else 3} {i}.5 {-i} 0.25 {1 + i / 4} {-1 if i < roots else i - 1 + off}" + "".join(f" {i + j}" for j in range(k)) + "\n"
+                   for i in range(m))
+
+
+def do_before(d, tmpdir):
+    """one earlier use of the entry points; what it returns is not judged here (other properties), only that it happened"""
+    from swcgeom.core import Tree
+    from swcgeom.core.swc import eswc_cols
+    from swcgeom.core.swc_utils import SWCNames, read_swc
+
+    op, m = d["op"], d["m"]
+    extras = [f"col{j}" for j in range(d.get("k", 0))]
+    if op == "read-extra":
+        k = len(extras) + (len(eswc_cols) if d["via"] == "Tree.from_eswc" else 0)
+        text = "# a file with more columns\n" + small_rows(m, k)
+        if d["src"] == "path":
+            src = os.path.join(tmpdir, "before.eswc")
+            with open(src, "w", encoding="utf-8") as f:
+                f.write(text)
+        else:
+            src = io.StringIO(text) if d["src"] == "text" else io.BytesIO(text.encode())
+        if d["via"] == "read_swc":
+            read_swc(src, extra_cols=extras)
+        elif d["via"] == "Tree.from_swc":
+            Tree.from_swc(src, extra_cols=extras)
+        else:
+            Tree.from_eswc(src, extra_cols=extras)
+    elif op == "write-extra":
+        cols = extras + ([c for c, _ in eswc_cols] if d["via"] == "to_eswc" else [])
+        t = Tree(m, id=np.arange(m), pid=np.arange(m) - 1, type=np.full(m, 3), x=np.arange(m) * 1.5, y=np.zeros(m), z=np.ones(m), r=np.ones(m),
+                 **{c: np.arange(m, dtype=np.int32) + j for j, c in enumerate(cols)})
+        if d["via"] == "to_swc":
+            t.to_swc(extra_cols=extras, id_offset=d["offset"])
+        else:
+            t.to_eswc(os.path.join(tmpdir, "before_w.eswc"), extra_cols=extras, id_offset=d["offset"])
+    elif op == "read-flags":
+        read_swc(io.StringIO(small_rows(m + d["roots"] - 1, roots=d["roots"])), fix_roots=d["fix_roots"], sort_nodes=d["sort_nodes"], reset_index=d["reset_index"])
+    elif op == "read-names":
+        read_swc(io.StringIO(small_rows(m)), names=SWCNames(id="n", type="T", x="X", y="Y", z="Z", r="R", pid="parent"), reset_index=d["reset_index"])
+    elif op == "read-bad":
+        if d["what"] == "missing-file":
+            Tree.from_swc(os.path.join(tmpdir, "no such file.swc"))
+        elif d["what"] == "extra-missing":   # asks for more columns than the file has
+            Tree.from_swc(io.StringIO(small_rows(m)), extra_cols=["col0", "col1"])
+        else:
+            Tree.from_swc(io.StringIO(small_rows(m) + ("1 2 3\n" if d["what"] == "short-row" else "this is not a row\n")))
+    elif op == "read-encoding":
+        enc = d["encoding"]
+        read_swc(io.BytesIO(("# comment é\n" + small_rows(m)).encode("utf-8" if enc == "detect" else enc)), encoding=enc)
+    elif op == "write-plain":
+        t = Tree(m, id=np.arange(m), pid=np.arange(m) - 1, type=np.full(m, 2), x=np.arange(m) * 2.5, y=np.zeros(m), z=np.ones(m), r=np.ones(m), comments=["earlier tree"])
+        Tree.from_swc(io.StringIO(t.to_swc(id_offset=d["offset"], source=d["source"], comments=d["comments"])))
+
+
 COMMENTS = ["plain comment", "  leading blanks", "", "   ", "\t", "x: 1, y: 2", "# nested hash", "ends with blanks   ", "CREATED BY tool", "id of the cell: 7"]
 
 
@@ -87,7 +187,7 @@ class RoundTrip(Suite):
             used[0] += m
             return got
 
-        def mk(n, shape, coords=None, kind=None, forms=None):
+        def mk(n, shape, coords=None, kind=None, forms=None, spell=None, before=None):
             coords = coords or rng.choice(["dyadic", "grid4", "wild", "float"])
             t = gen.tree_case(rng, n, shape, numbering=rng.choice(["sorted", "root0"]), coords=coords if coords in ("dyadic", "grid4") else "float", types="any")
             if coords == "wild":
@@ -111,6 +211,12 @@ class RoundTrip(Suite):
             if forms:
                 case["read_form"], case["write_form"] = forms
                 case["class"] = f"{case['kind']}:{forms[0]}/" + case["class"]
+            if spell:
+                case["spell"] = {"how": spell, "name": rng.choice(FILE_NAMES)}
+                case["class"] = f"spell:{spell}/" + case["class"]
+            if before:
+                case["before"] = before
+                case["class"] = "after:" + "+".join(b["op"] for b in before) + "/" + case["class"]
             return case
 
         sizes = gen.sizes(tier, widen) + ([3000] if tier == "thorough" and not widen else [])
@@ -134,9 +240,79 @@ class RoundTrip(Suite):
             for n in (rng.choice(small[:4]), rng.choice(small[4:])) + ((rng.choice(sizes),) if tier == "thorough" or widen else ()):
                 shape = gen.pick_shape(rng, k); k += 1
                 out.append(mk(n, shape, kind=kind, forms=forms))
+        more = tier == "thorough" or widen
+        # family "spell" (see SPELLINGS).  Guaranteed share: every spelling as the name the writer is given (to_swc(fname)) and as the name the
+        # reader is given, the path in one of the forms open() takes
+        for how in SPELLINGS:
+            for kind in ("path-write", "path"):
+                for _ in range(4 if more else 2):
+                    shape = gen.pick_shape(rng, k); k += 1
+                    f = rng.choice(["str", "str", "pathlike", "bytes"])
+                    out.append(mk(rng.choice(small), shape, kind=kind, forms=(f, f), spell=how))
+        # family "after" (see BEFORE_OPS).  Guaranteed share: every kind of earlier call once on its own, plus mixed sequences; all source kinds
+        seqs = [[before_op(rng, op)] for op in BEFORE_OPS for _ in range(3 if more else 1)]
+        seqs += [[before_op(rng, rng.choice(BEFORE_OPS)) for _ in range(rng.randint(2, 4))] for _ in range(8 if more else 3)]
+        for j, seq in enumerate(seqs):
+            shape = gen.pick_shape(rng, k); k += 1
+            out.append(mk(rng.choice(small), shape, kind=["text", "bytes", "path", "path-write"][j % 4], before=seq))
         return out
 
     def run(self, case):
+        if not case.get("before"):
+            return self._run(case)
+        # cases of the "after" family carry their whole history and run in a forked child: what they leave behind in the library (module-level
+        # state) stays out of the other cases, a finding belongs to the case that CONTAINS the history, and its replay in a fresh process sees
+        # the same thing
+        import json
+        import signal
+        import warnings
+
+        rd, wr = os.pipe()
+        with warnings.catch_warnings():
+            warnings.simplefilter("ignore")
+            pid = os.fork()
+        if pid == 0:
+            code = 1
+            try:
+                os.close(rd)
+                res = self._run(case)
+                with os.fdopen(wr, "w") as f:
+                    json.dump(res, f)
+                code = 0
+            finally:
+                os._exit(code)
+        os.close(wr)
+        try:
+            with os.fdopen(rd) as f:
+                data = f.read()
+            try:
+                return json.loads(data)
+            except ValueError:
+                return {"exc": "ChildDied", "msg": f"the process running the case ended without a result ({data[:100]!r})"}
+        finally:
+            try:
+                os.kill(pid, signal.SIGKILL)
+            except OSError:
+                pass
+            os.waitpid(pid, 0)
+
+    def _run(self, case):
+        from harness.framework import CaseTimeout
+
+        stage = ["build"]
+        try:
+            return self._roundtrip(case, stage)
+        except (CaseTimeout, RecursionError):
+            if case.get("before"):   # in the child: report instead of unwinding
+                return {"exc": "RecursionError/Timeout", "msg": f"during {stage[0]}", "stage": stage[0]}
+            raise
+        except Exception as e:  # noqa: BLE001 - the property says the round trip succeeds; the oracle reports it
+            import traceback
+
+            cause = f" <- {type(e.__cause__).__name__}: {e.__cause__}" if e.__cause__ is not None else ""
+            return {"exc": type(e).__name__, "msg": (str(e) + cause)[:400], "stage": stage[0], "tb": traceback.format_exc()[-1200:]}
+
+    def _roundtrip(self, case, stage):
         from swcgeom.core import Tree
 
         t = gen.make_tree(case["tree"], comments=list(case["comments"]))
@@ -155,18 +331,39 @@ class RoundTrip(Suite):
         tmp = None
         hist = []
         fh = None
+        cwd0 = os.getcwd()
         rform, wform = PATH_FORMS[case.get("read_form", "str")], PATH_FORMS[case.get("write_form", "str")]
         try:
+            before_log = []
+            if case.get("before"):
+                stage[0] = "earlier calls"
+                tmp = tempfile.mkdtemp(prefix="c01_")
+                for b in case["before"]:
+                    try:
+                        do_before(b, tmp)
+                        before_log.append("ok")
+                    except Exception as e:  # noqa: BLE001 - not judged by this property
+                        before_log.append(type(e).__name__)
+            if case.get("spell") and case["kind"] in ("path", "path-write"):
+                tmp = tmp or tempfile.mkdtemp(prefix="c01_")
+                cwd, spath, fn_abs = spelled(case["spell"]["how"], case["spell"]["name"], os.path.join(os.path.realpath(tmp), "here"))
+                os.makedirs(cwd, exist_ok=True)
+                os.chdir(cwd)
+            else:
+                spath = None
             cur = t
             for _ in range(case["passes"]):
                 kw = dict(source=case["source"], comments=case["with_comments"], id_offset=case["offset"])
                 if case["kind"] == "path-write":
                     tmp = tmp or tempfile.mkdtemp(prefix="c01_")
-                    fn = os.path.join(tmp, "w.swc")
+                    fn = spath or os.path.join(tmp, "w.swc")
+                    stage[0] = f"to_swc({wform(fn)!r})"
                     cur.to_swc(wform(fn), **kw)
                     src = rform(fn)
-                    text = open(fn, encoding="utf-8").read()
+                    stage[0] = "looking for the written file"
+                    text = open(fn_abs if spath else fn, encoding="utf-8").read()
                 else:
+                    stage[0] = "to_swc()"
                     text = cur.to_swc(**kw)
                     if case["kind"] == "text":
                         src = io.StringIO(text)
@@ -174,8 +371,8 @@ class RoundTrip(Suite):
                         src = io.BytesIO(text.encode("utf-8"))
                     else:
                         tmp = tmp or tempfile.mkdtemp(prefix="c01_")
-                        fn = os.path.join(tmp, "r.swc")
-                        with open(fn, "w", encoding="utf-8") as f:
+                        fn = spath or os.path.join(tmp, "r.swc")
+                        with open(fn_abs if spath else fn, "w", encoding="utf-8") as f:
                             f.write(text)
                         if case["kind"] == "textfile":   # a text stream that is an open file rather than a StringIO
                             if fh:
@@ -183,18 +380,24 @@ class RoundTrip(Suite):
                             src = fh = open(fn, encoding="utf-8")
                         else:
                             src = rform(fn)
+                stage[0] = f"Tree.from_swc({src!r})"
                 back = Tree.from_swc(src)
+                stage[0] = "reading the result"
                 hist.append({"text_head": text[:300], "full_text": text if len(hist) == 0 and back.number_of_nodes() <= 80 else None, "n": back.number_of_nodes(), "pid": back.pid().tolist(), "type": back.type().tolist(),
                              "id": back.id().tolist(),
                              "x": back.x().astype(np.float64).tolist(), "y": back.y().astype(np.float64).tolist(),
                              "z": back.z().astype(np.float64).tolist(), "r": back.r().astype(np.float64).tolist(),
                              "comments": list(back.comments), "source_attr": back.source})
                 cur = back
-            return {"passes": hist, "text": text if len(text) < 4000 else text[:4000], "first_text": hist[0]["full_text"] if t.number_of_nodes() <= 80 else None,
-                    "source_text": t.source}
+            res = {"passes": hist, "text": text if len(text) < 4000 else text[:4000], "first_text": hist[0]["full_text"] if t.number_of_nodes() <= 80 else None,
+                   "source_text": t.source}
+            if before_log:
+                res["before_log"] = before_log
+            return res
         finally:
             if fh:
                 fh.close()
+            os.chdir(cwd0)
             if tmp:
                 shutil.rmtree(tmp, ignore_errors=True)
 
@@ -236,8 +439,18 @@ class RoundTrip(Suite):
                 (f"swcread nx=0 reset=1 cp={st.cps(text)}", st.Expect(back, "Tree.from_swc(text) = " + repr({k: h[k] for k in ('id', 'pid', 'type', 'x', 'comments')})[:1200]))]
 
     def oracle(self, case, res):
+        try:
+            return self._oracle(case, res)
+        except Exception as e:  # noqa: BLE001 - an output the clauses cannot even be evaluated on is not the tree that was written
+            return [("malformed-output", f"the result of the round trip cannot be compared with the tree ({type(e).__name__}: {e}): {str(res)[:300]}")]
+
+    def _oracle(self, case, res):
+        if not isinstance(res, dict) or ("exc" not in res and not isinstance(res.get("passes"), list)):
+            return [("malformed-output", f"no result of the round trip: {str(res)[:300]}")]
         if "exc" in res:
-            return [("roundtrip-raises", f"write→read raised {res['exc']}: {res.get('msg')}")]
+            hist = "after " + " + ".join(b["op"] for b in case["before"]) + " earlier in the process, " if case.get("before") else ""
+            return [("roundtrip-raises", f"write→read raised {res['exc']}: {res.get('msg')} ({hist}during {res.get('stage', '?')}, kind {case['kind']}"
+                                         + (f", path spelled {case['spell']['how']!r}" if case.get("spell") else "") + ")")]
         t = case["tree"]
         n = t["n"]
         out = []
